@@ -45,7 +45,15 @@ Trig_FirstSegmentColon(o) ==
   /\ Scheme5(o) = <<>> /\ Netloc5(o) = <<>>
   /\ LET c == Find(Path5(o), COLON) IN c > 1 /\ \A k \in 1..(c - 1) : Path5(o)[k] \in SchemeChars
   /\ StrAsModel(o)
+\* str() rebuilds the authority from its parts when the port is the scheme default; with an EMPTY host
+\* (only possible with encoded=True, e.g. 'ftp://u@:21/') make_netloc(host=None) returns '' and the
+\* whole authority -- userinfo included -- disappears from the string
+Trig_EmptyHostDefaultPortStr(o) ==
+  /\ Netloc5(o) # <<>> /\ SplitAuthority(Netloc5(o)).host = <<>>
+  /\ Ok(o.explicit_port) /\ V(o.explicit_port) # None /\ V(o.explicit_port) = DefaultPort(Scheme5(o))
+  /\ StrAsModel(o)
 ObsAttribution(o) ==
+  (IF Trig_EmptyHostDefaultPortStr(o) THEN {"Dev_EmptyHostDefaultPortStr"} ELSE {}) \cup
   (IF Trig_RootlessPathGainsSlashInStr(o) THEN {"Dev_RootlessPathGainsSlashInStr"} ELSE {})
   \cup (IF Trig_FirstSegmentColon(o) THEN {"Dev_FirstSegmentColon"} ELSE {})
 \* Dev_BracketedNonIPv6LosesBrackets: _encode_host re-brackets only what ip_address() accepts, so an
